@@ -42,6 +42,8 @@ type Opts struct {
 	Journal      bool // allow journal opcodes (never for reference comparison)
 	SmallMem     bool // keep memory offsets small (cases carry memory snapshots)
 	NoGasObserve bool // no GAS opcode, calls pass a fixed gas amount (pair runs must not observe the fee difference)
+	NoMcopy      bool // Cancun programs without MCOPY (comparison with go-ethereum + EIP-1153)
+	NoCodeRead   bool // no CODECOPY / EXTCODECOPY / EXTCODEHASH (the compared variants differ in code bytes)
 	PadJournal   bool // follow each journal opcode popping n operands by n-1 JUMPDESTs (pair runs: same length as n POPs)
 }
 
@@ -175,7 +177,7 @@ func (g *gen) snippet() {
 		b.PushAddr(g.anyAddr()).Op([]byte{0x31, 0x3b}[g.r.Intn(2)])
 		g.sink()
 	case x < 35:
-		if f >= 5 {
+		if f >= 5 && !g.o.NoCodeRead {
 			b.PushAddr(g.anyAddr()).Op(0x3f) // EXTCODEHASH
 			g.sink()
 		}
@@ -201,13 +203,17 @@ func (g *gen) snippet() {
 		case 0:
 			b.Push(size).Push(src).Push(dst).Op(asm.CALLDATACOPY)
 		case 1:
-			if g.o.NoGasObserve { // the pair variants differ in code: do not let the program read its own code
+			if g.o.NoGasObserve || g.o.NoCodeRead { // the compared variants differ in code: do not let the program read its own code
 				b.Push(size).Push(src).Push(dst).Op(asm.CALLDATACOPY)
 			} else {
 				b.Push(size).Push(src).Push(dst).Op(asm.CODECOPY)
 			}
 		case 2:
-			b.Push(size).Push(src).Push(dst).PushAddr(g.anyAddr()).Op(0x3c) // EXTCODECOPY
+			if g.o.NoCodeRead {
+				b.Push(size).Push(src).Push(dst).Op(asm.CALLDATACOPY)
+			} else {
+				b.Push(size).Push(src).Push(dst).PushAddr(g.anyAddr()).Op(0x3c) // EXTCODECOPY
+			}
 		default:
 			b.Push(uint64(g.r.Intn(40))).Op(asm.CALLDATALOAD)
 			g.sink()
@@ -293,7 +299,12 @@ func (g *gen) snippet() {
 				b.Push(uint64(g.r.Intn(4))).Op(asm.TLOAD)
 				g.sink()
 			default:
-				b.Push(uint64(g.r.Intn(100))).Push(g.memOff()).Push(g.memOff()).Op(asm.MCOPY)
+				if g.o.NoMcopy {
+					b.Push(uint64(g.r.Intn(4))).Op(asm.TLOAD)
+					g.sink()
+				} else {
+					b.Push(uint64(g.r.Intn(100))).Push(g.memOff()).Push(g.memOff()).Op(asm.MCOPY)
+				}
 			}
 		}
 	case x < 94:
